@@ -397,6 +397,11 @@ fn oracle_built(input: &Pairs, b: &Built, st: &mut Stats, full_sweep: bool) {
     let c12 = first_cmap12(&cmap);
     let font = FontRef::new(&b.font).unwrap();
     let charmap = font.charmap();
+    // the cacheable constructor must give the same character map
+    let charmap_ix = skrifa::charmap::MappingIndex::new(&font).charmap(&font);
+    if (charmap.has_map(), charmap.is_symbol(), charmap.has_variant_map()) != (charmap_ix.has_map(), charmap_ix.is_symbol(), charmap_ix.has_variant_map()) {
+        fail(st, "charmap-constructors-disagree", json!({"what": "has_map/is_symbol/has_variant_map"}));
+    }
     let fcmap = font.cmap().unwrap();
     let mut cps: Vec<u32> = if full_sweep { (0..=0xFFFFu32).collect() } else { vec![] };
     cps.extend(boundary_cps(input));
@@ -449,7 +454,14 @@ fn oracle_built(input: &Pairs, b: &Built, st: &mut Stats, full_sweep: bool) {
             }
         }
         // high level: exactly the mapping
+        let r_ix = catch(|| charmap_ix.map(c));
         let r = catch(|| charmap.map(c));
+        if r != r_ix {
+            nfail += 1;
+            if nfail < 4 {
+                fail(st, "charmap-constructors-disagree", json!({"c": c, "Charmap::new": format!("{:?}", r), "MappingIndex::charmap": format!("{:?}", r_ix)}));
+            }
+        }
         if r != Ok(exp.map(GlyphId::new)) {
             nfail += 1;
             if nfail < 4 {
@@ -486,7 +498,11 @@ fn oracle_built(input: &Pairs, b: &Built, st: &mut Stats, full_sweep: bool) {
             }
         }
     }
+    let got_ix: Result<Vec<(u32, u32)>, _> = catch(|| charmap_ix.mappings().map(|(c, g)| (c, g.to_u32())).collect());
     let got: Result<Vec<(u32, u32)>, _> = catch(|| charmap.mappings().map(|(c, g)| (c, g.to_u32())).collect());
+    if got != got_ix {
+        fail(st, "charmap-constructors-disagree", json!({"what": "mappings()", "new_len": got.as_ref().map(|v| v.len()).unwrap_or(0), "index_len": got_ix.as_ref().map(|v| v.len()).unwrap_or(0)}));
+    }
     // U+FFFF excepted at the format-4 level
     let strip = |v: &Vec<(u32, u32)>| -> Vec<(u32, u32)> { v.iter().cloned().filter(|(c, _)| *c != 0xFFFF || has_supp).collect() };
     if got.as_ref().map(strip) != Ok(strip(&all)) {
@@ -519,7 +535,8 @@ fn impl_outcome_term(input: &Pairs, out: &Outcome, rng: &mut Rng) -> String {
             let data = FontData::new(&b.cmap_bytes);
             let cmap = rcmap::Cmap::read(data).unwrap();
             let font = FontRef::new(&b.font).unwrap();
-            let charmap = font.charmap();
+            // observations for the model come from the cacheable constructor (oracle_built requires it to equal Charmap::new)
+            let charmap = skrifa::charmap::MappingIndex::new(&font).charmap(&font);
             let mut cps: BTreeSet<u32> = BTreeSet::new();
             for (c, _) in input {
                 cps.insert(c.saturating_sub(1));
@@ -879,6 +896,10 @@ fn gen_var14(rng: &mut Rng, st: &mut Stats, cw: &mut CaseWriter) {
         st.evaluations += 1;
         let got = catch(|| r14.map_variant(*c, *s)).map(conv);
         let got2 = catch(|| charmap.map_variant(*c, *s)).map(conv);
+        let got3 = catch(|| skrifa::charmap::MappingIndex::new(&font).charmap(&font).map_variant(*c, *s)).map(conv);
+        if got3 != got2 {
+            report(st, json!({"key": "charmap-constructors-disagree:map_variant", "c": c, "selector": s, "new": format!("{:?}", got2), "index": format!("{:?}", got3)}));
+        }
         let exp = expect(*c, *s);
         if got != Ok(exp) || got2 != Ok(exp) {
             report(st, json!({"key": format!("cmap14-map_variant:{:016x}", fnv(&bytes)), "c": c, "selector": s,
@@ -901,6 +922,10 @@ fn gen_var14(rng: &mut Rng, st: &mut Stats, cw: &mut CaseWriter) {
     let tbl = || json!(format!("{:?}", table));
     let it1 = guard(st, "Cmap14::iter", &tbl, || r14.iter().map(|(c, s, v)| (c, s, conv(Some(v)).unwrap())).collect::<Vec<(u32, u32, Option<u32>)>>());
     let it2 = guard(st, "Charmap::variant_mappings", &tbl, || charmap.variant_mappings().map(|(c, s, v)| (c, s, conv(Some(v)).unwrap())).collect::<Vec<(u32, u32, Option<u32>)>>());
+    let it3 = guard(st, "MappingIndex::charmap().variant_mappings", &tbl, || skrifa::charmap::MappingIndex::new(&font).charmap(&font).variant_mappings().map(|(c, s, v)| (c, s, conv(Some(v)).unwrap())).collect::<Vec<(u32, u32, Option<u32>)>>());
+    if it3 != it2 {
+        report(st, json!({"key": "charmap-constructors-disagree:variant_mappings", "table": tbl()}));
+    }
     for (api, got) in [("Cmap14::iter", &it1), ("Charmap::variant_mappings", &it2)] {
         if let Some(got) = got {
             if *got != exp_iter {
@@ -993,6 +1018,10 @@ fn real_var14(font_bytes: &[u8], name: &str, st: &mut Stats, cw: &mut CaseWriter
         st.evaluations += 1;
         let got = catch(|| r14.map_variant(*c, *s)).map(conv);
         let got2 = catch(|| charmap.map_variant(*c, *s)).map(conv);
+        let got3 = catch(|| skrifa::charmap::MappingIndex::new(&font).charmap(&font).map_variant(*c, *s)).map(conv);
+        if got3 != got2 {
+            report(st, json!({"key": "charmap-constructors-disagree:map_variant", "c": c, "selector": s, "new": format!("{:?}", got2), "index": format!("{:?}", got3)}));
+        }
         let exp = expect(*c, *s);
         if got != Ok(exp) || got2 != Ok(exp) {
             report(st, json!({"key": format!("cmap14-map_variant:{}", name), "c": c, "selector": s,
@@ -1014,6 +1043,10 @@ fn real_var14(font_bytes: &[u8], name: &str, st: &mut Stats, cw: &mut CaseWriter
     let tbl = || json!(name);
     let it1 = guard(st, "Cmap14::iter", &tbl, || r14.iter().map(|(c, s, v)| (c, s, conv(Some(v)).unwrap())).collect::<Vec<(u32, u32, Option<u32>)>>());
     let it2 = guard(st, "Charmap::variant_mappings", &tbl, || charmap.variant_mappings().map(|(c, s, v)| (c, s, conv(Some(v)).unwrap())).collect::<Vec<(u32, u32, Option<u32>)>>());
+    let it3 = guard(st, "MappingIndex::charmap().variant_mappings", &tbl, || skrifa::charmap::MappingIndex::new(&font).charmap(&font).variant_mappings().map(|(c, s, v)| (c, s, conv(Some(v)).unwrap())).collect::<Vec<(u32, u32, Option<u32>)>>());
+    if it3 != it2 {
+        report(st, json!({"key": "charmap-constructors-disagree:variant_mappings", "table": tbl()}));
+    }
     if it1.as_ref() != Some(&exp_iter) || it2.as_ref() != Some(&exp_iter) {
         report(st, json!({"key": format!("cmap14-iter:{}", name), "expected_len": exp_iter.len()}));
     }
@@ -1031,6 +1064,207 @@ fn real_var14(font_bytes: &[u8], name: &str, st: &mut Stats, cw: &mut CaseWriter
     let lk = clist(lookups.iter(), |(c, s, r)| format!("({}, {}, {})", c, s, copt(r.map(|v| copt(v.map(|g| g.to_string()))))));
     let it = clist(got_iter.iter(), |(c, s, v)| format!("({}, {}, {})", c, s, copt(v.map(|g| g.to_string()))));
     cw.push(format!("CVar14wf {} {} {}", sels_term, lk, it));
+}
+
+/// Hand-built lists of encoding records — (0,3)/(0,4)/(3,1)/(3,10)/(0,5)/(3,0)/(1,0)/(2,x) in arbitrary order, duplicates pointing at
+/// different subtables, unsupported formats — and every Charmap observation through both constructors.
+fn gen_select(rng: &mut Rng, st: &mut Stats, cw: &mut CaseWriter) {
+    #[derive(Clone)]
+    enum Sub {
+        F4(Vec<(u16, u16, i16)>),          // delta segments (start, end, delta)
+        F12(Vec<(u32, u32, u32)>),
+        F14(Vec<(u32, Option<Vec<(u32, u8)>>, Option<Vec<(u32, u16)>>)>),
+        Other,
+    }
+    let n = 1 + rng.below(6) as usize;
+    let kinds: &[(u16, u16)] = &[(0, 3), (0, 4), (3, 1), (3, 10), (0, 5), (3, 0), (1, 0), (2, 1), (0, 0), (0, 6), (4, 0)];
+    let mut recs: Vec<(u16, u16, Sub)> = vec![];
+    for k in 0..n {
+        let (p, e) = if rng.chance(3, 4) { kinds[rng.below(5) as usize] } else { *rng.pick(kinds) };
+        // every subtable distinguishable: glyph ids depend on the record position
+        let base = 10 + 100 * k as u32;
+        let symbol = (p, e) == (3, 0);
+        let sub = match rng.below(10) {
+            0 => Sub::Other,
+            1 | 2 if (p, e) == (0, 5) || rng.chance(1, 3) => {
+                let s0 = *rng.pick(&[0xFE00u32, 0xFE0F, 0xE0100]);
+                Sub::F14(vec![(s0, Some(vec![(0x30 + k as u32, 1)]), Some(vec![(0x41, base as u16), (0x1F600, (base + 1) as u16)])),
+                              (s0 + 1, None, Some(vec![(0x42, (base + 2) as u16)]))])
+            }
+            3..=6 => {
+                let s = if symbol { 0xF020u16 + rng.below(8) as u16 } else { 0x20 + rng.below(40) as u16 };
+                let mut segs = vec![(s, s + 5 + rng.below(10) as u16, (base as i32 - s as i32) as i16)];
+                if rng.chance(1, 2) {
+                    segs.push((0x2000 + 16 * k as u16, 0x2003 + 16 * k as u16, (base as i32 + 50 - 0x2000 - 16 * k as i32) as i16));
+                }
+                if rng.chance(1, 4) {
+                    segs.push((0x40, 0x40, -0x40)); // maps U+0040 to .notdef explicitly
+                }
+                segs.sort();
+                Sub::F4(segs)
+            }
+            _ => {
+                let mut g = vec![(0x30 + rng.below(20) as u32, 0x60, base)];
+                if rng.chance(2, 3) {
+                    g.push((0x1F600 + 16 * k as u32, 0x1F604 + 16 * k as u32, base + 60));
+                }
+                if rng.chance(1, 4) {
+                    g.push((0x10FFFE, 0x10FFFF, base + 70));
+                }
+                Sub::F12(g)
+            }
+        };
+        recs.push((p, e, sub));
+    }
+    if rng.chance(1, 3) && recs.len() >= 2 {
+        // a duplicate (platform, encoding) pointing at a different subtable
+        let i = rng.below(recs.len() as u64) as usize;
+        let j = rng.below(recs.len() as u64) as usize;
+        let (p, e, _) = recs[i].clone();
+        recs[j].0 = p;
+        recs[j].1 = e;
+    }
+    let plat = |p: u16| match p {
+        0 => wcmap::PlatformId::Unicode,
+        1 => wcmap::PlatformId::Macintosh,
+        2 => wcmap::PlatformId::ISO,
+        3 => wcmap::PlatformId::Windows,
+        _ => wcmap::PlatformId::Custom,
+    };
+    let wrecs: Vec<wcmap::EncodingRecord> = recs
+        .iter()
+        .map(|(p, e, sub)| {
+            let st = match sub {
+                Sub::F4(segs) => {
+                    let mut ends: Vec<u16> = segs.iter().map(|s| s.1).collect();
+                    let mut starts: Vec<u16> = segs.iter().map(|s| s.0).collect();
+                    let mut deltas: Vec<i16> = segs.iter().map(|s| s.2).collect();
+                    ends.push(0xFFFF);
+                    starts.push(0xFFFF);
+                    deltas.push(1);
+                    let n = ends.len();
+                    wcmap::CmapSubtable::format_4(0, ends, starts, deltas, vec![0; n], vec![])
+                }
+                Sub::F12(g) => wcmap::CmapSubtable::format_12(0, g.iter().map(|(a, b, c)| wcmap::SequentialMapGroup::new(*a, *b, *c)).collect()),
+                Sub::F14(t) => {
+                    let vs: Vec<wcmap::VariationSelector> = t
+                        .iter()
+                        .map(|(s, d, n)| {
+                            wcmap::VariationSelector::new(
+                                Uint24::new(*s),
+                                d.as_ref().map(|v| wcmap::DefaultUvs::new(v.len() as u32, v.iter().map(|(a, b)| wcmap::UnicodeRange::new(Uint24::new(*a), *b)).collect())),
+                                n.as_ref().map(|v| wcmap::NonDefaultUvs::new(v.len() as u32, v.iter().map(|(a, b)| wcmap::UvsMapping::new(Uint24::new(*a), *b)).collect())),
+                            )
+                        })
+                        .collect();
+                    wcmap::CmapSubtable::format_14(10 + 11 * vs.len() as u32, vs.len() as u32, vs)
+                }
+                Sub::Other => wcmap::CmapSubtable::format_0(0, (0..=255u8).collect()),
+            };
+            wcmap::EncodingRecord::new(plat(*p), *e, st)
+        })
+        .collect();
+    let wc = wcmap::Cmap::new(wrecs);
+    let ng: u16 = *rng.pick(&[65535u16, 700, 300, 75]);
+    let desc = format!("{:?}", recs.iter().map(|(p, e, s)| (p, e, match s { Sub::F4(_) => 4, Sub::F12(_) => 12, Sub::F14(_) => 14, Sub::Other => 0 })).collect::<Vec<_>>());
+    let input = || json!(desc.clone());
+    let Some(fbytes) = guard(st, "FontBuilder", &input, || {
+        let mut fb = FontBuilder::new();
+        fb.add_table(&wc).unwrap();
+        fb.add_table(&Maxp::new(ng)).unwrap();
+        fb.build()
+    }) else {
+        return;
+    };
+    let font = FontRef::new(&fbytes).unwrap();
+    // decoded records, as read back
+    let cmap = font.cmap().unwrap();
+    let mut terms: Vec<String> = vec![];
+    for rec in cmap.encoding_records() {
+        let stt = match rec.subtable(cmap.offset_data()) {
+            Ok(rcmap::CmapSubtable::Format4(c4)) => format!("(F4 {})", coq_t4(&t4_of(&c4, true))),
+            Ok(rcmap::CmapSubtable::Format12(c12)) => format!(
+                "(F12 {})",
+                coq_groups(&c12.groups().iter().map(|g| (g.start_char_code(), g.end_char_code(), g.start_glyph_id())).collect::<Vec<_>>())
+            ),
+            Ok(rcmap::CmapSubtable::Format14(r14)) => {
+                let mut t = vec![];
+                for r in r14.var_selector() {
+                    let d = r.default_uvs(r14.offset_data()).and_then(|x| x.ok()).map(|d| d.ranges().iter().map(|r| (r.start_unicode_value().to_u32(), r.additional_count())).collect::<Vec<_>>());
+                    let n = r.non_default_uvs(r14.offset_data()).and_then(|x| x.ok()).map(|n| n.uvs_mapping().iter().map(|m| (m.unicode_value().to_u32(), m.glyph_id())).collect::<Vec<_>>());
+                    t.push((r.var_selector().to_u32(), d, n));
+                }
+                format!(
+                    "(F14 {})",
+                    clist(t.iter(), |(s, d, n)| format!(
+                        "({}, {}, {})",
+                        s,
+                        copt(d.as_ref().map(|v| clist(v.iter(), |(a, b)| format!("({}, {})", a, b)))),
+                        copt(n.as_ref().map(|v| clist(v.iter(), |(a, b)| format!("({}, {})", a, b))))
+                    ))
+                )
+            }
+            _ => "FOther".to_string(),
+        };
+        terms.push(format!("({}, {}, {})", rec.platform_id() as u16, rec.encoding_id(), stt));
+    }
+    let cps: Vec<u32> = {
+        let mut v: BTreeSet<u32> = [0u32, 0x20, 0x25, 0x30, 0x3F, 0x40, 0x41, 0x42, 0x50, 0x60, 0x61, 0xFF, 0x2000, 0x2001, 0x2010, 0x2021, 0x2033, 0xF020, 0xF025, 0xF041,
+                                    0xFFFF, 0x1F600, 0x1F604, 0x1F611, 0x1F623, 0x1F640, 0x10FFFE, 0x10FFFF].into_iter().collect();
+        for _ in 0..6 {
+            v.insert(rng.below(0x80) as u32);
+        }
+        v.into_iter().collect()
+    };
+    let vqs: Vec<(u32, u32)> = vec![(0x41, 0xFE00), (0x41, 0xFE0F), (0x41, 0xE0100), (0x42, 0xFE01), (0x42, 0xFE10), (0x42, 0xE0101), (0x30, 0xFE00), (0x31, 0xFE0F), (0x32, 0xE0100),
+                                    (0x33, 0xFE00), (0x35, 0xFE0F), (0x1F600, 0xFE00), (0x1F600, 0xE0100), (0x43, 0xFE00)];
+    let conv = |r: Option<rcmap::MapVariant>| -> Option<Option<u32>> {
+        r.map(|v| match v {
+            rcmap::MapVariant::UseDefault => None,
+            rcmap::MapVariant::Variant(g) => Some(g.to_u32()),
+        })
+    };
+    type Obs = (Vec<(u32, Option<u32>)>, Vec<(u32, u32)>, (bool, bool, bool), Vec<(u32, u32, Option<Option<u32>>)>);
+    let observe = |cm: &skrifa::charmap::Charmap| -> Obs {
+        (
+            cps.iter().map(|c| (*c, cm.map(*c).map(|g| g.to_u32()))).collect(),
+            cm.mappings().map(|(c, g)| (c, g.to_u32())).collect(),
+            (cm.has_map(), cm.is_symbol(), cm.has_variant_map()),
+            vqs.iter().map(|(c, s)| (*c, *s, conv(cm.map_variant(*c, *s)))).collect(),
+        )
+    };
+    let Some(o1) = guard(st, "Charmap::new", &input, || observe(&font.charmap())) else { return };
+    let Some(o2) = guard(st, "MappingIndex::new().charmap()", &input, || observe(&skrifa::charmap::MappingIndex::new(&font).charmap(&font))) else { return };
+    st.evaluations += 2 * (cps.len() + vqs.len() + 2) as u64;
+    if o1 != o2 {
+        report(st, json!({"key": "charmap-constructors-disagree:records", "records": desc,
+                          "Charmap::new": format!("{:?}", (&o1.2, o1.1.len(), o1.0.iter().filter(|x| x.1.is_some()).count())),
+                          "MappingIndex::charmap": format!("{:?}", (&o2.2, o2.1.len(), o2.0.iter().filter(|x| x.1.is_some()).count()))}));
+    }
+    st.count(&format!("select.records.{}", recs.len()));
+    if o1.2 .1 {
+        st.count("select.symbol_chosen");
+    }
+    if o1.2 .2 {
+        st.count("select.variant_chosen");
+    }
+    if !o1.2 .0 {
+        st.count("select.no_map");
+    }
+    st.nontrivial(&format!("sel {}", desc));
+    // the model is fed from the cacheable constructor
+    let (lk, maps, (hm, sy, hv), vl) = o2;
+    cw.push(format!(
+        "CSelect {} {} {} {} {} {} {} {}",
+        clist(terms.iter(), |t| t.clone()),
+        ng,
+        coq_lookups(&lk),
+        coq_pairs(&maps),
+        cbool(hm),
+        cbool(sy),
+        cbool(hv),
+        clist(vl.iter(), |(c, s, r)| format!("({}, {}, {})", c, s, copt(r.map(|v| copt(v.map(|g| g.to_string()))))))
+    ));
 }
 
 fn main() {
@@ -1283,6 +1517,11 @@ fn main() {
     for _ in 0..n_read / 2 {
         if let Err(p) = catch(std::panic::AssertUnwindSafe(|| gen_var14(&mut rng, &mut st, &mut cw))) {
             report(&mut st, json!({"key": panic_key(&p), "what": "panic in stream gen_var14 (input reproducible from the seed)", "panic": p}));
+        }
+    }
+    for _ in 0..n_read {
+        if let Err(p) = catch(std::panic::AssertUnwindSafe(|| gen_select(&mut rng, &mut st, &mut cw))) {
+            report(&mut st, json!({"key": panic_key(&p), "what": "panic in stream gen_select (input reproducible from the seed)", "panic": p}));
         }
     }
     if let Err(p) = catch(std::panic::AssertUnwindSafe(|| real_var14(font_test_data::CMAP14_FONT1, "cmap14_font1", &mut st, &mut cw))) {
